@@ -57,6 +57,10 @@ SUMMARY = {
 'c08t':'capacity = max(min.next_power_of_two(), 64 KiB): a longest pattern of exactly 65536 / 131072 ... bytes leaves no spare room',
 'c17t':'shared prefilter effectiveness tracker turns the prefilter permanently inert after 50 match-dense calls: earliest(true) on a leftmost searcher with the packed prefilter then answers differently',
 'c18t':'ErrorKind::Interrupted from the reader is retried inside fill and never reported (first tolerated by the check; see section 10.2)',
+'c07u':'start-state skip set in the stream loop probed with `for byte in 0..u8::MAX`: a pattern whose first byte is 0xFF is skipped while in the start state (same idea as c07f, written independently)',
+'c08u':'non-match chunk before a match ends at the max (instead of min) start offset over all patterns of the match state: with suffix patterns the match head is written verbatim and as many bytes after it are dropped',
+'c17u':'8-slot direct-mapped memo of fruitless find/is_match calls keyed by a fingerprint that hashes only the first and last 32 bytes of spans > 64 bytes: a different haystack of the same length and ends returns None',
+'c18u':'the closure result is checked at the top of the next loop iteration only: a closure (or in-closure write) failure at the last match of a stream that ends with that match is dropped',
 'c18a':'fill returns Ok(true) instead of the error when it had already buffered bytes in the same call: one-shot read errors during the initial fill vanish',
 'c18b':'closure errors of kind Interrupted are retried by calling the closure again: error swallowed, partial output duplicated',
 'c18c':'fill commits its new end only after the loop: an error on a later read of one fill discards bytes accepted earlier; polling on shifts all later offsets',
